@@ -287,6 +287,83 @@ impl DependencyGraph {
     }
 }
 
+impl DependencyGraph {
+    /// An error handler is invoked when the component it is attached to has failed: it can't
+    /// depend, directly or transitively, on the value that the very same component would have
+    /// produced had it succeeded.
+    ///
+    /// Returns `Ok` if no error handler does, otherwise it emits error diagnostics and returns `Err`.
+    pub(super) fn assert_error_handlers_do_not_need_the_missing_output(
+        &self,
+        component_db: &ComponentDb,
+        computation_db: &ComputationDb,
+        diagnostics: &crate::diagnostic::DiagnosticSink,
+    ) -> Result<(), ()> {
+        let component_id2index: HashMap<ComponentId, NodeIndex> = self
+            .graph
+            .node_indices()
+            .filter_map(|index| match &self.graph[index] {
+                DependencyGraphNode::Compute { component_id } => Some((*component_id, index)),
+                DependencyGraphNode::Input { .. } => None,
+            })
+            .collect();
+        let mut failed = false;
+        for index in self.graph.node_indices() {
+            let DependencyGraphNode::Compute {
+                component_id: err_match_id,
+            } = self.graph[index]
+            else {
+                continue;
+            };
+            let Some(error_handler_id) = component_db.error_handler_id(err_match_id) else {
+                continue;
+            };
+            let fallible_id = component_db.fallible_id(err_match_id);
+            let Some((ok_match_id, _)) = component_db.match_ids(fallible_id) else {
+                continue;
+            };
+            let (Some(ok_index), Some(handler_index)) = (
+                component_id2index.get(ok_match_id),
+                component_id2index.get(error_handler_id),
+            ) else {
+                continue;
+            };
+            if !petgraph::algo::has_path_connecting(&self.graph, *ok_index, *handler_index, None) {
+                continue;
+            }
+            let render = |id: ComponentId| match component_db
+                .hydrated_component(id, computation_db)
+                .computation()
+            {
+                Computation::Callable(c) => c.to_string(),
+                _ => unreachable!(),
+            };
+            let ok_type = component_db
+                .hydrated_component(*ok_match_id, computation_db)
+                .output_type()
+                .cloned()
+                .unwrap();
+            let handler_path = render(*error_handler_id);
+            let fallible_path = render(fallible_id);
+            let error = anyhow::anyhow!(
+                "`{handler_path}` is the error handler for `{fallible_path}`, but it depends on `{ok_type:?}`, \
+                which is built by `{fallible_path}` itself.\n\
+                An error handler is invoked when the fallible component has failed: \
+                the value it would have produced is not there to be injected."
+            );
+            diagnostics.push(
+                CompilerDiagnostic::builder(error)
+                    .help(format!(
+                        "Remove `{ok_type:?}` (or whatever requires it) from the input parameters of `{handler_path}`."
+                    ))
+                    .build(),
+            );
+            failed = true;
+        }
+        if failed { Err(()) } else { Ok(()) }
+    }
+}
+
 fn cycle_error(
     graph: &RawDependencyGraph,
     cycle: &[NodeIndex],
